@@ -35,6 +35,9 @@ const freshModule = "freshgen"
 // rawDescriptors extracts the FileDescriptorProtos embedded in generated Go files (file_*_rawDesc literals).
 var rawDescPkg = map[string]string{} // proto file name -> Go package that embeds its descriptor
 
+// rawDescBase: (package path, proto file name) -> the "file_…" prefix of that file's generated variables
+var rawDescBase = map[string]string{}
+
 func rawDescriptors(pkgs []*packages.Package) (map[string]*descriptorpb.FileDescriptorProto, error) {
 	out := map[string]*descriptorpb.FileDescriptorProto{}
 	for _, pk := range pkgs {
@@ -69,6 +72,7 @@ func rawDescriptors(pkgs []*packages.Package) (map[string]*descriptorpb.FileDesc
 					}
 					out[fd.GetName()] = fd
 					rawDescPkg[fd.GetName()] = pk.PkgPath
+					rawDescBase[pk.PkgPath+"\x00"+fd.GetName()] = strings.TrimSuffix(vs.Names[0].Name, "_rawDesc")
 				}
 			}
 		}
